@@ -20,6 +20,9 @@ CHECKS = {
  'C13': dict(cat='exploration', sec='4/C13', tech='runtime monitoring: one watched child process of the real CLI per fuzzed input (type grammar, directive grammar+mutation, argv); exit-status/stderr/panic-dump/hang monitor',
    text='Thousands of generated inputs over the exotic part of the Go type grammar, mutated directives at every directive position and random argument vectors are each run in their own CLI process under a watchdog; exit status must be 0 or 1, no Go panic dump, failures carry a diagnostic naming the declaration.',
    note='hang = no termination within 60 s (300x normal); non-compiling generated inputs are dropped before goverter sees them'),
+ 'C17': dict(cat='fault_enumeration', sec='4/C17', tech='runtime monitoring: real CLI under strace (syscall log of file-system effects) with enumerated faulty-converter subsets, prior output states and injected I/O faults; tree digest before/after',
+   text='For multi-package scenarios every subset of converters (all subsets up to 4 converters) is made faulty at directive, signature or conversion stage; a failing run must exit 1 with a diagnostic and perform no mutating syscall below the module tree; fault-free runs must leave exactly the in-process result; help/usage vectors and strace-injected ENOSPC/EACCES faults complete the enumeration.',
+   note='strace -ff -y sees all syscalls of the CLI and children; in-process public API result is the byte reference for successful runs'),
  'C18': dict(cat='exploration', sec='4/C18', tech='runtime monitoring: AST monitor over every file emitted by real CLI runs (import whitelist from the input IR, declaration kinds)',
    text='Every emitted file of the corpus is parsed: no reflect/unsafe, imports only from the packages the case owns (plus fmt / wrapErrorsUsing package when configured), only converter struct, funcs and init at top level.',
    note='go/parser; allowed import set known from the generator IR'),
